@@ -7,7 +7,8 @@ from . import common
 _X = dict(p_opt_existing=.4, p_multi_choice=.3)
 PROFILES = {
     'C02': [
-        ('main', .45, dict(p_incompat=.4)),
+        ('main', .33, dict(p_incompat=.4)),
+        ('merge_back', .12, dict(p_incompat=.5, p_merge=.35, p_merge_back=.5, p_edges_late=.6, n_steps=(5, 12))),
         ('shared_option', .1, dict(allow=('shared_option',), p_incompat=.3, **_X)),
         ('opt_derived_by_origin', .07, dict(allow=('opt_derived_by_origin',), p_incompat=.3, **_X)),
         ('opt_is_permanent', .07, dict(allow=('opt_is_permanent', 'opt_derived_by_origin'), p_incompat=.3, **_X)),
@@ -17,7 +18,8 @@ PROFILES = {
         ('soup', .08, dict(exotic=True, p_incompat=.6, p_cycle=.25, **_X)),
     ],
     'C06': [
-        ('main', .55, dict(p_incompat=1.0, n_incompat=(1, 3))),
+        ('main', .35, dict(p_incompat=1.0, n_incompat=(1, 3))),
+        ('merge_back', .2, dict(p_incompat=1.0, n_incompat=(1, 3), p_merge=.35, p_merge_back=.5, p_edges_late=.6, n_steps=(5, 12))),
         ('shared_option', .12, dict(allow=('shared_option',), p_incompat=1., n_incompat=(1, 3), **_X)),
         ('opt_derived_by_origin', .06, dict(allow=('opt_derived_by_origin',), p_incompat=1., n_incompat=(1, 2), **_X)),
         ('opt_is_permanent', .06, dict(allow=('opt_is_permanent', 'opt_derived_by_origin'), p_incompat=1., **_X)),
@@ -183,9 +185,72 @@ def check_case(prop, sp, col, shard_name='corpus', max_paths=3000):
     col.count('feasible_leaves', sum(len(v) for v in leaves.values()))
     col.count('infeasible_leaves', n_infeasible)
     col.count('distinct_architectures', len(got))
+    if prop == 'C02' and sp['incompat']:
+        reuse_check(prop, sp, col, flags)
     if len(col.samples) < 2 and nontrivial:
         col.sample({'spec': common.short(sp), 'paths_walked': n_paths, 'feasible_architectures': len(got),
                     'reference_architectures': len(ref), 'flags': flags})
+
+
+def reuse_check(prop, sp, col, flags):
+    """One builder object used for two set_start_nodes calls (as the repository's own tests do): the design space of
+    the SECOND call must be that of a fresh builder with the same start nodes -- the first call (which prunes nodes
+    incompatible with its confirmed nodes) must not have changed the builder."""
+    import copy
+    if sp['constraints'] or sp['conn'] or S.is_exotic(flags):
+        return
+    nm = S.node_map(sp)
+    succ = {}
+    for u, v in sp['edges']:
+        succ.setdefault(u, []).append(v)
+    cands = []
+    if len(sp['start']) > 1:
+        cands += [[s] for s in sp['start']]
+    cands += [[v] for s in sp['start'] for v in succ.get(s, []) if nm[v]['kind'] == 'named'][:2]
+    for c in sp['sel']:     # a start set below an option: the usual way to look at a sub-architecture
+        cands += [[o] for o in c['options'][:1] if nm[o]['kind'] == 'named']
+    if not cands:
+        return
+    rnd = gen.rng_for('reuse', S.digest(sp))
+    start_b = cands[rnd.randrange(len(cands))]
+    b = B.build(sp, initialize=False)
+    if b.dsg is None:
+        return
+    builder = b.dsg
+    col.count('monitor_builder_reuse_evaluations')
+    try:
+        builder.set_start_nodes({b.node[s] for s in sp['start']})       # first use (result checked by the main walk)
+        g2 = builder.set_start_nodes({b.node[s] for s in start_b})      # second use of the same builder
+    except Exception as e:  # noqa
+        col.count('builder_reuse_rejected_' + type(e).__name__)
+        return
+    sp2 = copy.deepcopy(sp)
+    sp2['start'] = start_b
+    sp2.pop('features', None)
+    case2 = D.Case(sp2)
+    if case2.archs is None or case2.b.dsg is None:
+        return
+    b2 = copy.copy(b)
+    b2.dsg = g2
+    got = set()
+    for path, g, e in D.walk(b2, max_paths=400):
+        if e is not None or g is None:
+            return   # (judged by the main walk on fresh builders)
+        obs = O.instance(g, b2)
+        if obs['feasible'] and not [c for c in obs['choices'] if c.startswith('S:')]:
+            got.add(O.arch_key(obs))
+    fresh = set()
+    for path, g, e in D.walk(case2.b, max_paths=400):
+        if e is not None or g is None:
+            return
+        obs = O.instance(g, case2.b)
+        if obs['feasible'] and not [c for c in obs['choices'] if c.startswith('S:')]:
+            fresh.add(O.arch_key(obs))
+    if got != fresh:
+        col.violation('reused_builder_differs_from_fresh_builder', sp,
+                      {'second_start': start_b, 'n_reused': len(got), 'n_fresh': len(fresh),
+                       'only_fresh': sorted(fresh - got)[:1], 'only_reused': sorted(got - fresh)[:1]}, flags,
+                      where={'dir': 'missing' if fresh - got else 'extra'})
 
 
 def worker(task, col):
